@@ -315,6 +315,33 @@ def run_case(case):
                 events.append(judge("trial/written-ci-amplitudes-are-t1-t2-cluster-expansion", _amplitude_residual(mycc, amp), 1e-12,
                                     key + "/ci-amplitudes/" + case["trial"], blocks=sorted(amp.keys())))
                 cnt["amplitude_checks"] = cnt.get("amplitude_checks", 0) + 1
+            # the same set-up through the files a launched job reads: options.bin (pickled options) and observable.h5
+            import pickle
+
+            opt_in = {"trial": case["trial"], "walker_type": case["wt"], "n_walkers": 4, "seed": 7}
+            with open("options.bin", "wb") as fo:
+                pickle.dump(dict(opt_in), fo)
+            op_w = rng.normal(size=(trial.norb, trial.norb))
+            op_w = (op_w + op_w.T) / 2
+            const_w = float(rng.normal())
+            with h5py.File("observable.h5", "w") as fo:
+                fo["constant"] = np.array([const_w])
+                fo["op"] = op_w.flatten()
+            with contextlib.redirect_stdout(io.StringIO()):
+                hd2, ham2, prop2, trial2, wd2, smp2, obs2, opt2, _ = mpi_jax._prep_afqmc()
+            os.remove("observable.h5")
+            os.remove("options.bin")
+            same = (type(trial2) is type(trial) and type(prop2) is type(prop) and all(opt2.get(k_) == options.get(k_) for k_ in options if k_ != "seed")
+                    and float(np.max(np.abs(np.asarray(hd2["h1"]) - np.asarray(ham_data["h1"])))) == 0.0
+                    and float(np.max(np.abs(np.asarray(hd2["chol"]) - np.asarray(ham_data["chol"])))) == 0.0)
+            events.append(ev("setup/options-file-equals-explicit-options", bool(same), key=key + "/options-bin", trial=type(trial2).__name__, prop=type(prop2).__name__))
+            ok_obs = obs2 is not None and abs(float(obs2[1]) - const_w) < 1e-14
+            if ok_obs:
+                o_ = np.asarray(obs2[0])
+                blocks = [o_] if o_.ndim == 2 else [o_[0], o_[1]]
+                ok_obs = (o_.ndim == (3 if case["wt"] == "uhf" else 2)) and all(np.max(np.abs(b_ - op_w)) < 1e-14 for b_ in blocks)
+            events.append(ev("setup/observable-file-read-back", bool(ok_obs), key=key + "/observable-h5", walker_type=case["wt"]))
+            cnt["setup_file_checks"] = cnt.get("setup_file_checks", 0) + 1
             with h5py.File("FCIDUMP_chol", "r") as fh:
                 nelec_w, nmo, ms, nchol = [int(x) for x in fh["header"]]
                 h0 = float(np.array(fh["energy_core"]))
